@@ -3,7 +3,7 @@ random larger sequences go through the real code; TLC judges (input view, values
 import json
 
 from harness import core, project as P
-from harness.common import pmap, build, via4, canonical_in, perturb_returned_defaults
+from harness.common import pmap, build, via4, canonical_in, doubled, perturb_returned_defaults
 from harness.drive_quantise import random_score
 
 core.import_scoda()
@@ -17,8 +17,12 @@ def execute(case):
     line = {"values": values, "noExtend": noext, "in": [], "out": [], "outRel": [], "raised": "",
             "case": {"score": score, "values": values, "noExtend": noext}}
     try:
-        seq = build(score, via4(idx))
-        line["in"] = canonical_in(seq, score)
+        if idx % 11 == 10:      # the score played twice: one object concatenated with itself (shared Message objects)
+            seq = doubled(score)
+            line["in"] = P.raw_abs(seq)
+        else:
+            seq = build(score, via4(idx))
+            line["in"] = canonical_in(seq, score)
         perturb_returned_defaults()
         if values == list(DEFAULT_VALUES) and idx % 2:
             seq.quantise_note_lengths(do_not_extend=noext)     # the default values through the default argument
